@@ -146,6 +146,8 @@ class Check:
         if self.errors:
             for e in self.errors:
                 out.append(f"ANALYSIS-ERROR property={self.pid} {e}")
+            for o in reported:
+                out.append(f"UNCONFIRMED (analysis incomplete) {o.file}:{o.line}: [{o.rule}] {o.instance}: {o.detail or ''} expected={_short(o.expected)} found={_short(o.found)}")
             status = 2
         elif reported:
             for i, o in enumerate(reported):
